@@ -1,12 +1,13 @@
 (* Drv_screen — wire entry for the screen-layer correspondence (C04..C08, C18, C12 reads, C17 separator).
    case   = (fuel (spec ...) (typed ...) quit? run_empty (action ...))
    spec   = ((setup-result ...) (scmd ...)refresh (scmd ...)show (scmd ...)closed ((key (scmd ...) ret) ...)
-             ((scmd ...) ret?) prompt_none input_required no_separator skip_check pages)
+             ((scmd ...) ret?) prompt_none input_required no_separator skip_check pages answer0)
    typed  = (line) | ()  end of file
    action = (0 scmd ...) commands issued by the application outside any callback | (1) App.run()
    scmd   = (0 s a) push | (1 s a) push modal | (2 s a) replace | (3 s a) schedule | (4) self.close() | (5) close_screen()
           | (6) self.redraw() | (7) scheduler.redraw() | (8) raise | (9) exit | (10) force_quit | (11) get_user_input
           | (12 b) input_required := b | (13 a) answer := a | (14 n) mark | (15 k (then) (else))
+          | (16) sys.exit(1) | (17 s) screens[s].redraw() | (18 s) screens[s].close()
    ret    = (0) PROCESSED | (1) PROCESSED_AND_REDRAW | (2) PROCESSED_AND_CLOSE | (3) DISCARDED | (4 key) | (5) None
    result = ((outcome ...) (event ...) (stack entry ids, top first) (level ...)) *)
 From Coq Require Import ZArith NArith List Bool.
@@ -37,6 +38,9 @@ Fixpoint as_scmd (fuel : nat) (s : sx) : option scmd :=
     | L [I 12%Z; b] => option_map SSetInputRequired (as_bool b)
     | L [I 13%Z; a] => option_map SSetAnswer (as_answer a)
     | L [I 14%Z; n] => option_map SMark (as_nat n)
+    | L [I 16%Z] => Some SSysExit
+    | L [I 17%Z; a] => option_map SRedrawOther (as_nat a)
+    | L [I 18%Z; a] => option_map SCloseOther (as_nat a)
     | L [I 15%Z; k; t; e] =>
       match as_nat k, as_list (as_scmd f) t, as_list (as_scmd f) e with
       | Some k, Some t, Some e => Some (SIfCount k t e) | _, _, _ => None end
@@ -58,21 +62,28 @@ Definition as_input_entry (s : sx) : option (str * (list scmd * ret_val)) :=
   | _ => None
   end.
 
-Definition as_spec (s : sx) : option screen_spec :=
+Definition as_spec12 (s : sx) : option screen_spec :=
   match s with
-  | L [su; rf; sh; cl; it; L [dc; dr]; pn; ir; ns; sk; pg] =>
+  | L [su; rf; sh; cl; it; L [dc; dr]; pn; ir; ns; sk; pg; a0] =>
     match as_list as_bool su, as_cmds rf, as_cmds sh, as_cmds cl, as_list as_input_entry it, as_cmds dc, as_opt as_ret dr with
     | Some su, Some rf, Some sh, Some cl, Some it, Some dc, Some dr =>
-      match as_bool pn, as_bool ir, as_bool ns, as_bool sk, as_nat pg with
-      | Some pn, Some ir, Some ns, Some sk, Some pg =>
+      match as_bool pn, as_bool ir, as_bool ns, as_bool sk, as_nat pg, as_answer a0 with
+      | Some pn, Some ir, Some ns, Some sk, Some pg, Some a0 =>
         Some {| sc_setup := su; sc_refresh := rf; sc_show := sh; sc_closed := cl; sc_input := it;
                 sc_input_default := (dc, dr); sc_prompt_none := pn; sc_input_required := ir;
-                sc_no_separator := ns; sc_skip_check := sk; sc_pages := pg |}
-      | _, _, _, _, _ => None
+                sc_no_separator := ns; sc_skip_check := sk; sc_pages := pg; sc_answer0 := a0 |}
+      | _, _, _, _, _, _ => None
       end
     | _, _, _, _, _, _, _ => None
     end
   | _ => None
+  end.
+
+(* the 11-element form (sessions recorded before [sc_answer0] existed): no initial answer attribute *)
+Definition as_spec (s : sx) : option screen_spec :=
+  match s with
+  | L [su; rf; sh; cl; it; d; pn; ir; ns; sk; pg] => as_spec12 (L [su; rf; sh; cl; it; d; pn; ir; ns; sk; pg; I 0%Z])
+  | _ => as_spec12 s
   end.
 
 Definition as_saction (s : sx) : option saction :=
